@@ -55,3 +55,4 @@ except ImportError:
     print("MANIFEST.json written (jsonschema not available): %d checks" % len(checks))
 import subprocess
 subprocess.call(["python3", os.path.join(V, "tools", "mkfindings_md.py")])
+subprocess.call(["python3", os.path.join(V, "tools", "mkseeded_md.py")])
